@@ -34,6 +34,9 @@ pub enum Ty {
     Int { min: i128, max: i128 },
     /// custom FromStr accepting exactly these words
     Tag(&'static [&'static str]),
+    /// custom FromStr accepting UTF-8 text starting with "ok:"; its error text quotes the input
+    /// after a short prefix (user text inside the cause buffer)
+    Echo,
 }
 #[derive(Clone, Copy, Debug, PartialEq, Eq)]
 pub enum Kind {
@@ -146,6 +149,14 @@ pub fn convert(ty: Ty, b: &[u8]) -> Result<Sc, Class> {
         Ty::Int { min, max } => {
             std::str::from_utf8(b).map_err(|_| Class::BadUtf8)?;
             parse_int(b, min, max).map(Sc::I).ok_or(Class::BadValue)
+        }
+        Ty::Echo => {
+            std::str::from_utf8(b).map_err(|_| Class::BadUtf8)?;
+            if b.starts_with(b"ok:") {
+                Ok(Sc::B(b.to_vec()))
+            } else {
+                Err(Class::BadValue)
+            }
         }
         Ty::Tag(words) => {
             std::str::from_utf8(b).map_err(|_| Class::BadUtf8)?;
@@ -400,8 +411,34 @@ fn gen_bytes(ty: Ty, r: &mut Rng, cfg: &GenCfg) -> Vec<u8> {
             s.into_bytes()
         }
         Ty::Tag(words) => r.pick(words).as_bytes().to_vec(),
+        Ty::Echo => format!("ok:{}", r.pick(&WORDS)).into_bytes(),
     }
 }
+
+/// Text for the alignment sweep: `pad` ASCII bytes, then characters of the given widths
+/// (cycled) while they fit, then ASCII up to exactly `total` bytes.
+pub fn aligned_text(pad: &[u8], widths: &[usize], total: usize) -> Vec<u8> {
+    const CH: [&str; 5] = ["", "q", "ö", "€", "𝄞"];
+    let mut v = pad.to_vec();
+    let mut i = 0;
+    while v.len() + widths[i % widths.len()] <= total {
+        v.extend_from_slice(CH[widths[i % widths.len()]].as_bytes());
+        i += 1;
+    }
+    while v.len() < total {
+        v.push(b'z');
+    }
+    v
+}
+pub const FILLERS: [(&str, &[usize]); 6] = [
+    ("2-byte", &[2]),
+    ("3-byte", &[3]),
+    ("4-byte", &[4]),
+    ("mixed-2-3-4", &[2, 3, 4]),
+    ("mixed-4-1-3", &[4, 1, 3]),
+    ("mixed-3-2", &[3, 2]),
+];
+pub const PADS: [&[u8]; 9] = [b"", b"a", b"ab", b"abc", b"abcd", b"-", b"--", b"--a", b"--ab"];
 
 /// a value and the bytes that spell it
 fn gen_scalar(ty: Ty, r: &mut Rng, cfg: &GenCfg) -> (Sc, Vec<u8>) {
